@@ -65,15 +65,15 @@ type A struct {
 func (a *A) r(f string, m map[string]interface{}) (interface{}, error) {
 	return a.B.ReflResolve(a.ID, f, m)
 }
-func (a *A) Name() (interface{}, error) { return a.r("name", nil) }
-func (a *A) N() (interface{}, error)    { return a.r("n", nil) }
-func (a *A) Peer() (interface{}, error) { return a.r("peer", nil) }
-func (a *A) Self() (interface{}, error) { return a.r("self", nil) }
-func (a *A) Kids() (interface{}, error) { return a.r("kids", nil) }
-func (a *A) Boom() (interface{}, error) { return a.r("boom", nil) }
-func (a *A) Many() (interface{}, error) { return a.r("many", nil) }
-func (a *A) Half() (interface{}, error) { return a.r("half", nil) }
-func (a *A) Nest() (interface{}, error) { return a.r("nest", nil) }
+func (a *A) Name() (interface{}, error)  { return a.r("name", nil) }
+func (a *A) N() (interface{}, error)     { return a.r("n", nil) }
+func (a *A) Peer() (interface{}, error)  { return a.r("peer", nil) }
+func (a *A) Self() (interface{}, error)  { return a.r("self", nil) }
+func (a *A) Kids() (interface{}, error)  { return a.r("kids", nil) }
+func (a *A) Boom() (interface{}, error)  { return a.r("boom", nil) }
+func (a *A) Many() (interface{}, error)  { return a.r("many", nil) }
+func (a *A) Half() (interface{}, error)  { return a.r("half", nil) }
+func (a *A) Nest() (interface{}, error)  { return a.r("nest", nil) }
 func (a *A) Wrong() (interface{}, error) { return a.r("wrong", nil) }
 func (a *A) Flags() (interface{}, error) { return a.r("flags", nil) }
 func (a *A) Tag(s string) (interface{}, error) {
